@@ -97,6 +97,12 @@ func init() {
 			ExpectReach: []string{"end"}, NoNative: "lock-set ghost state has no native counterpart",
 			Desc: "DB." + n + ": every access to kv state under db.mu, one critical section, released on every path, save under the lock"})
 	}
+	for _, n := range []string{"Put", "Activate", "DeleteVersion", "Get"} {
+		c14.Harnesses = append(c14.Harnesses, &HarnessSpec{Name: "verifHarnessC14Interleave" + n, Pkg: "db", Stubs: dbStubs,
+			Params: map[string]int{"secrets": 1, "versions": 2}, ThoroughParams: map[string]int{"secrets": 2, "versions": 3}, ExpectReach: []string{"end"},
+			NoNative: "the second request is run re-entrantly from the audit sink, a schedule the native harness cannot force",
+			Desc: "DB." + n + " with another client's whole request (put/activate/delete-version/delete on the same secret) executed in the window between its audit record and its critical section: state consistent, both puts retrievable under distinct numbers"})
+	}
 	propRegistry = append(propRegistry, c14)
 }
 
